@@ -175,6 +175,15 @@ def evaluate(case):
     doc = jasm_io.make_doc(pattern, mn_full or None, op_full or None, macros=doc_macros, config={"sections": case["sections_cfg"]} if case.get("sections_cfg") else None)
     rule_path = sc.write("c20_rule.yaml", jasm_io.rule_text(doc))
     api_cwd = None
+    if binary and kind == "match" and not case.get("relpaths") and opts.get("order", 0) % 4 in (2, 3) and os.path.isfile(input_path) and "odd-input-file-name" not in ev.tags:
+        # the binary lies in the working directory under the name of a program that is also on PATH and is given by that bare name:
+        # the file named is ./ls, for the command as for the library
+        bare = ["ls", "cat", "objdump", "sh"][opts["order"] // 4 % 4]
+        with open(input_path, "rb") as f_, open(os.path.join(cwd, bare), "wb") as g_:
+            g_.write(f_.read())
+        input_path = bare
+        api_cwd = cwd
+        ev.tags.append("binary-under-the-bare-name-of-a-program-on-PATH")
     if case.get("relpaths") and case["src"] == "macro-files" and kind == "match":
         rel = case["relpaths"]
         sub = "rules" if rel.startswith("pattern-in-subdir") else "."
@@ -296,7 +305,32 @@ def evaluate(case):
             stdin_text = f_.read()
         args = ["/dev/stdin" if a == real else a.replace(real, "/dev/stdin") if a.endswith("=" + real) else a for a in args]
         ev.tags.append("via-stdin=" + case["via_stdin"])
+    log_blocked = False
+    import zlib
+
+    if kind == "match" and zlib.crc32(repr([os.path.basename(a_) for a_ in args]).encode()) % 8 == 5:
+        # the per-second log file of the INFO level cannot be opened (a directory stands in its place for the coming seconds): the
+        # command may fail - with a non-zero status - or report once what the library computes; nothing else
+        import datetime
+
+        now = datetime.datetime.today()
+        for ds in range(0, 12):
+            blocked = os.path.join(cwd, "logs", "INFO", (now + datetime.timedelta(seconds=ds)).strftime("%Y_%m_%d_%H_%M_%S") + ".log")
+            if os.path.isfile(blocked):
+                os.unlink(blocked)  # (left by an earlier command of the same second)
+            os.makedirs(blocked, exist_ok=True)
+        log_blocked = True
+        ev.tags.append("info-log-file-cannot-be-opened")
     rc, out, err = jasm_io.cli(args, cwd, env_extra={"PATH": path_override} if path_override is not None else None, entry=entry, stdin_text=stdin_text)
+    if log_blocked:
+        import shutil
+
+        shutil.rmtree(os.path.join(cwd, "logs", "INFO"), ignore_errors=True)
+        if rc != 0:
+            ev.subcases = 2
+            ev.tags.append("info-log-blocked=command-failed")
+            ev.nontrivial = True
+            return ev
     ev.subcases = 2
     reported = [m.group(1) for ln in err.split("\n") for m in [LINE.search(ln)] if m]
     found_line = "RESULT: Pattern found" in err
